@@ -59,6 +59,15 @@ type seqHeld struct {
 	verr error
 }
 
+// seqAt renders "when: call i (kind)" only when a message is needed.
+type seqAt struct {
+	when string
+	i    int
+	kind string
+}
+
+func (a seqAt) String() string { return fmt.Sprintf("%s: call %d (%s)", a.when, a.i, a.kind) }
+
 func seqCall(op SeqOp) seqHeld {
 	var h seqHeld
 	switch op.Kind {
@@ -78,7 +87,7 @@ func seqCall(op SeqOp) seqHeld {
 
 // seqVerify compares what call i handed out with the reference for call i's own input.
 func seqVerify(ctx *pbt.Ctx, when string, i int, op SeqOp, h seqHeld) error {
-	at := fmt.Sprintf("%s: call %d (%s)", when, i, op.Kind)
+	at := seqAt{when, i, op.Kind}
 	switch op.Kind {
 	case "enc", "rt":
 		if !bytes.Equal(h.dataIn, op.Data) {
@@ -180,8 +189,8 @@ func checkSeq(ctx *pbt.Ctx, c Seq) error {
 			g.Data = append(g.Data, 0xee)
 			g.Prefix, g.Version, g.Network = "scribbled", -1, -1
 			for j := i + 1; j < len(held); j++ {
-				if err := seqVerify(ctx, fmt.Sprintf("after the caller overwrote the value decoded by call %d", i), j, c.Ops[j], held[j]); err != nil {
-					return err
+				if err := seqVerify(ctx, "after the caller overwrote an earlier decoded value", j, c.Ops[j], held[j]); err != nil {
+					return fmt.Errorf("(value decoded by call %d overwritten) %v", i, err)
 				}
 			}
 		}
@@ -335,7 +344,7 @@ func genSeq(t *rapid.T) Seq {
 
 func TestSequence(t *testing.T) {
 	pbt.Run(t, pbt.Sub[Seq]{
-		Name: "sequence", Quick: 150000, Thorough: 3000000,
+		Name: "sequence", Quick: 120000, Thorough: 3000000,
 		Gen:   genSeq,
 		Check: checkSeq,
 	})
